@@ -116,6 +116,9 @@ def path_scope(k):
     if k == 'tt':
         return [g for g in fm.enum_exact(fm.LTL_UN, fm.LTL_BIN, (fm.P, fm.Q), 2)
                 if g[0] in fm.TEMP and fm.temporal_count(g) == 2]
+    if isinstance(k, str) and '/' in k:
+        base, step = k.split('/')
+        return path_scope(base)[::int(step)]
     if k == 'pairs':
         return temporal_pairs()
     if k == 'nary':
@@ -158,15 +161,17 @@ def enum_shard(st, shard, nshards, payload):
                 if j % stride:
                     continue
                 j //= stride
-            if j % nshards != shard:
-                continue
-            idx += 1 + shard
+            # work is dealt to the shards per (structure, formula) item, not per structure: scopes
+            # with few structures and many (or slow) formulas would otherwise leave shards idle
+            idx = j
             M = ref.Model(K)
             naming = NAMINGS[idx % len(NAMINGS)]
             how = idx % 6
             kripke = km.to_lib(K, naming, how)
             back = dict((km.name_of(naming)(i), i) for i in range(n))
             for gi, g in enumerate(paths):
+                if (j * 7 + gi) % nshards != shard:
+                    continue
                 exp = expected(M, g, certify=(gi % 5 == idx % 5), spot=0)
                 try:
                     res = L.modelcheck(kripke, objs[gi])
@@ -219,8 +224,8 @@ def run(ctx):
                       'the same structure samples (sparser) x pairs (910 formulas x op y joining two different one-operator temporal formulas, incl. constant operands) and x nary (868 formulas with 3- and 4-ary and/or of temporal operands)']
     else:
         scopes = [(1, 2, 1), (2, 1, 1), (2, 2, 12), (3, 1, 24), (4, 1, 60013), (3, 'tt', 211), (2, 'k3', 16),
-                  (3, 'k3', 1801), (1, 'rep', 1), (2, 'rep', 24), (3, 'rep', 5501),
-                  (1, 'pairs', 2), (2, 'pairs', 72), (3, 'pairs', 11003), (1, 'nary', 2), (2, 'nary', 72), (3, 'nary', 11003)]
+                  (3, 'k3', 1801), (1, 'rep/2', 1), (2, 'rep/2', 24), (3, 'rep/2', 5501),
+                  (1, 'pairs/4', 2), (2, 'pairs/4', 72), (3, 'pairs/4', 11003), (1, 'nary/4', 2), (2, 'nary/4', 72), (3, 'nary/4', 11003)]
         ctx.scopes = ['S(1) x k<=2', 'S(2) x k<=1', 'every 12th of S(2) x k<=2',
                       'every 24th of S(3) x k<=1', 'every 60013th of S(4) x k<=1',
                       'every 211th of S(3) x tt (two nested temporal operators)',
